@@ -99,7 +99,9 @@ pub const TYPES: &[&str] = &[
 
 fn tok(rng: &mut Rng) -> String {
     let n = 1 + rng.below(10);
-    (0..n)
+    // a third of the tokens carry upper-case letters: nothing in these records folds case
+    let upper = rng.chance(1, 3);
+    let t: String = (0..n)
         .map(|i| {
             let c = rng.below(40);
             match c {
@@ -111,7 +113,12 @@ fn tok(rng: &mut Rng) -> String {
                 _ => '_',
             }
         })
-        .collect()
+        .collect();
+    if upper {
+        t.chars().enumerate().map(|(i, c)| if i % 2 == 0 { c.to_ascii_uppercase() } else { c }).collect()
+    } else {
+        t
+    }
 }
 
 fn unknown_word(rng: &mut Rng) -> String {
